@@ -92,12 +92,23 @@ theorem C18_func_context (lines : List Chars) (target : Nat) (name : String) (de
       · simp only [h3]
         refine ⟨⟨fun _ => ⟨h1.1, by omega, h2'⟩, fun _ => rfl⟩, by simp, fun _ _ _ _ _ _ => by omega⟩
 
-/-- **the decorator test does not look at `indirect=`** (E18): a cursor on the line of ANY
-    `@pytest.mark.parametrize(...)` decorator is a fixture-name context. -/
-theorem C18_parametrize_without_indirect (target : Nat) (d : Expr) (ds : List Expr)
+/-- **C18 (a parametrize decorator is a fixture-name context only when it is indirect)** — since
+    the E18 repair: a cursor on the lines of `@pytest.mark.parametrize(...)` gives a context iff the
+    call carries `indirect=` with something other than the constant `False` (before, ANY
+    parametrize decorator did). -/
+theorem C18_parametrize_iff_indirect (target : Nat) (d : Expr) (ds : List Expr)
     (hline : d.range.line ≤ target ∧ target ≤ d.range.endLine)
-    (hu : isUsefixtures d = false) (hp : isParametrize d = true) :
-    decoCtx target (d :: ds) = some .parametrize := by
-  simp [decoCtx, hline.1, hline.2, hu, hp]
+    (hu : isUsefixtures d = false) :
+    (isIndirectParametrize d = true → decoCtx target (d :: ds) = some .parametrize) ∧
+    (isIndirectParametrize d = false → decoCtx target (d :: ds) = decoCtx target ds) := by
+  constructor
+  · intro hp; simp [decoCtx, hline.1, hline.2, hu, hp]
+  · intro hp; simp [decoCtx, hline.1, hline.2, hu, hp]
+
+/-- `parametrize("a", [1, 2])` without `indirect=` is not indirect; with `indirect=True` it is -/
+example : isIndirectParametrize (.call (.attribute (.attribute (.name "pytest" ⟨1,1,1,7⟩) "mark" ⟨1,1,1,12⟩) "parametrize" ⟨1,1,1,24⟩)
+    [.constant (.str "a") ⟨1,25,1,28⟩] [] [] ⟨1,1,1,40⟩) = false := by decide
+example : isIndirectParametrize (.call (.attribute (.attribute (.name "pytest" ⟨1,1,1,7⟩) "mark" ⟨1,1,1,12⟩) "parametrize" ⟨1,1,1,24⟩)
+    [.constant (.str "a") ⟨1,25,1,28⟩] [some "indirect"] [.constant (.bool true) ⟨1,40,1,44⟩] ⟨1,1,1,45⟩) = true := by decide
 
 end PLS
